@@ -7,7 +7,7 @@
 (* the cases it generated and on the traces recorded from the real code.   *)
 (*                                                                         *)
 (* Encoding (forced by TLC, see DESIGN.md 3.2):                            *)
-(*  - a JSON value is a tagged record [t |-> tag, v |-> payload];          *)
+(*  - a JSON value is a tagged tuple <<tag, payload>>;                      *)
 (*  - the abstract number n stands for the JSON number n/2 (odd n are the  *)
 (*    non-integers), uniformly in instances and in numeric keywords;       *)
 (*  - a schema is a record whose DOMAIN is the set of keywords present;    *)
@@ -20,14 +20,19 @@ EXTENDS Integers, Sequences, FiniteSets, TLC
 Has(s, k)    == k \in DOMAIN s
 Get(s, k, d) == IF k \in DOMAIN s THEN s[k] ELSE d
 
-Null     == [t |-> "null"]
-Num(n)   == [t |-> "num",  v |-> n]
-Str(x)   == [t |-> "str",  v |-> x]
-Bool(b)  == [t |-> "bool", v |-> b]
-Arr(q)   == [t |-> "arr",  v |-> q]
-Obj(f)   == [t |-> "obj",  v |-> f]
+\* Tagged values are TUPLES <<tag, payload>>: TLC orders record fields by an internal token order,
+\* so a set mixing [t |-> "num", v |-> 1] and [t |-> "str", v |-> "a"] may compare 1 with "a" and
+\* fail; tuples are always compared tag first.
+Null     == <<"null">>
+Num(n)   == <<"num", n>>
+Str(x)   == <<"str", x>>
+Bool(b)  == <<"bool", b>>
+Arr(q)   == <<"arr", q>>
+Obj(f)   == <<"obj", f>>
+Tag(x)   == x[1]
+Val(x)   == x[2]
 
-IsNull(x) == x.t = "null"
+IsNull(x) == Tag(x) = "null"
 
 \* record surgery (schemas and JSON objects are functions with string domains)
 Del(r, k)    == [x \in (DOMAIN r) \ {k} |-> r[x]]
@@ -65,22 +70,22 @@ StringFormats == {"date", "date-time", "uuid", "email"}
 (* Type test.  integer: a num whose abstract value is even (n/2 integral). *)
 (***************************************************************************)
 TypeOK(ty, v) ==
-  CASE ty = "integer" -> v.t = "num" /\ v.v % 2 = 0
-    [] ty = "number"  -> v.t = "num"
-    [] ty = "string"  -> v.t = "str"
-    [] ty = "boolean" -> v.t = "bool"
-    [] ty = "array"   -> v.t = "arr"
-    [] ty = "object"  -> v.t = "obj"
+  CASE ty = "integer" -> Tag(v) = "num" /\ Val(v) % 2 = 0
+    [] ty = "number"  -> Tag(v) = "num"
+    [] ty = "string"  -> Tag(v) = "str"
+    [] ty = "boolean" -> Tag(v) = "bool"
+    [] ty = "array"   -> Tag(v) = "arr"
+    [] ty = "object"  -> Tag(v) = "obj"
     [] OTHER          -> TRUE
 
 EnumOK(s, v) ==
   LET ty == Get(s, "type", "") IN
   IF ty \in {"integer", "number"}
-    THEN v.t = "num" /\ \E i \in DOMAIN s.enum : s.enum[i] = v.v
+    THEN Tag(v) = "num" /\ \E i \in DOMAIN s.enum : s.enum[i] = Val(v)
   ELSE IF ty = "string"
-    THEN v.t = "str" /\ \E i \in DOMAIN s.enum : s.enum[i] = v.v
+    THEN Tag(v) = "str" /\ \E i \in DOMAIN s.enum : s.enum[i] = Val(v)
   ELSE IF ty = "boolean"
-    THEN v.t = "bool" /\ \E i \in DOMAIN s.enum : s.enum[i] = v.v
+    THEN Tag(v) = "bool" /\ \E i \in DOMAIN s.enum : s.enum[i] = Val(v)
   ELSE TRUE
 
 NumOK(s, n) ==
@@ -119,18 +124,18 @@ Valid(defs, s0, v) ==
   LET s == Deref(defs, s0) IN
   /\ Has(s, "type") => TypeOK(s.type, v)
   /\ Has(s, "enum") => EnumOK(s, v)
-  /\ v.t = "num" => NumOK(s, v.v)
-  /\ v.t = "str" => StrOK(s, v.v)
-  /\ v.t = "arr" =>
-       /\ CountOK(s, Len(v.v))
-       /\ Get(s, "uniqueItems", FALSE) => Distinct(v.v)
-       /\ Has(s, "items") => \A i \in DOMAIN v.v : Valid(defs, s.items, v.v[i])
-  /\ v.t = "obj" =>
-       /\ \A r \in Required(s) : r \in DOMAIN v.v
-       /\ PropCountOK(s, Cardinality(DOMAIN v.v))
-       /\ \A k \in DOMAIN v.v :
-            IF k \in DOMAIN Props(s) THEN Valid(defs, Props(s)[k], v.v[k])
-            ELSE IF Has(s, "additionalProperties") THEN Valid(defs, s.additionalProperties, v.v[k])
+  /\ Tag(v) = "num" => NumOK(s, Val(v))
+  /\ Tag(v) = "str" => StrOK(s, Val(v))
+  /\ Tag(v) = "arr" =>
+       /\ CountOK(s, Len(Val(v)))
+       /\ Get(s, "uniqueItems", FALSE) => Distinct(Val(v))
+       /\ Has(s, "items") => \A i \in DOMAIN Val(v) : Valid(defs, s.items, Val(v)[i])
+  /\ Tag(v) = "obj" =>
+       /\ \A r \in Required(s) : r \in DOMAIN Val(v)
+       /\ PropCountOK(s, Cardinality(DOMAIN Val(v)))
+       /\ \A k \in DOMAIN Val(v) :
+            IF k \in DOMAIN Props(s) THEN Valid(defs, Props(s)[k], Val(v)[k])
+            ELSE IF Has(s, "additionalProperties") THEN Valid(defs, s.additionalProperties, Val(v)[k])
             ELSE ~Get(s, "noAdditional", FALSE)
   /\ Has(s, "allOf") => \A i \in DOMAIN s.allOf : Valid(defs, s.allOf[i], v)
 
@@ -161,11 +166,11 @@ ZeroEligible(defs, s, k, v) ==
 RECURSIVE Erasures(_, _, _, _)
 Erasures(defs, s0, d, depth) ==
   LET s == Deref(defs, s0) IN
-  IF d.t # "obj" \/ depth = 0 \/ ~Has(s, "properties") THEN {d}
+  IF Tag(d) # "obj" \/ depth = 0 \/ ~Has(s, "properties") THEN {d}
   ELSE
-    LET ks   == DOMAIN d.v
-        elig == {k \in ks : k \in DOMAIN Props(s) /\ ZeroEligible(defs, s, k, d.v[k])}
-        Sub(k) == IF k \in DOMAIN Props(s) THEN Erasures(defs, Props(s)[k], d.v[k], depth - 1) ELSE {d.v[k]}
+    LET ks   == DOMAIN Val(d)
+        elig == {k \in ks : k \in DOMAIN Props(s) /\ ZeroEligible(defs, s, k, Val(d)[k])}
+        Sub(k) == IF k \in DOMAIN Props(s) THEN Erasures(defs, Props(s)[k], Val(d)[k], depth - 1) ELSE {Val(d)[k]}
     IN UNION { { Obj(f) : f \in { g \in [ks \ drop -> UNION {Sub(k) : k \in ks}] :
                                    \A k \in ks \ drop : g[k] \in Sub(k) } }
                : drop \in SUBSET elig }
@@ -173,9 +178,9 @@ Erasures(defs, s0, d, depth) ==
 \* null where the schema does not make it a distinguishable value: zero value or absent
 RECURSIVE HasNull(_)
 HasNull(d) ==
-  \/ d.t = "null"
-  \/ d.t = "arr" /\ \E i \in DOMAIN d.v : HasNull(d.v[i])
-  \/ d.t = "obj" /\ \E k \in DOMAIN d.v : HasNull(d.v[k])
+  \/ Tag(d) = "null"
+  \/ Tag(d) = "arr" /\ \E i \in DOMAIN Val(d) : HasNull(Val(d)[i])
+  \/ Tag(d) = "obj" /\ \E k \in DOMAIN Val(d) : HasNull(Val(d)[k])
 
 (***************************************************************************)
 (* ValidModel: Valid with the generator-side switches                      *)
@@ -187,18 +192,18 @@ ValidModel(defs, s0, v) ==
   LET s == Deref(defs, s0) IN
   /\ Has(s, "type") => TypeOK(s.type, v)
   /\ Has(s, "enum") => EnumOK(s, v)
-  /\ v.t = "num" => NumOK(s, v.v)
-  /\ v.t = "str" => StrOK(s, v.v)
-  /\ v.t = "arr" =>
-       /\ CountOK(s, Len(v.v))
-       /\ Get(s, "uniqueItems", FALSE) => Distinct(v.v)
-       /\ Has(s, "items") => \A i \in DOMAIN v.v : ValidModel(defs, s.items, v.v[i])
-  /\ v.t = "obj" =>
-       /\ \A r \in Required(s) : r \in DOMAIN v.v
-       /\ PropCountOK(s, Cardinality(DOMAIN v.v))
-       /\ \A k \in DOMAIN v.v :
-            IF k \in DOMAIN Props(s) THEN ValidModel(defs, Props(s)[k], v.v[k])
-            ELSE IF Has(s, "additionalProperties") THEN ValidModel(defs, s.additionalProperties, v.v[k])
+  /\ Tag(v) = "num" => NumOK(s, Val(v))
+  /\ Tag(v) = "str" => StrOK(s, Val(v))
+  /\ Tag(v) = "arr" =>
+       /\ CountOK(s, Len(Val(v)))
+       /\ Get(s, "uniqueItems", FALSE) => Distinct(Val(v))
+       /\ Has(s, "items") => \A i \in DOMAIN Val(v) : ValidModel(defs, s.items, Val(v)[i])
+  /\ Tag(v) = "obj" =>
+       /\ \A r \in Required(s) : r \in DOMAIN Val(v)
+       /\ PropCountOK(s, Cardinality(DOMAIN Val(v)))
+       /\ \A k \in DOMAIN Val(v) :
+            IF k \in DOMAIN Props(s) THEN ValidModel(defs, Props(s)[k], Val(v)[k])
+            ELSE IF Has(s, "additionalProperties") THEN ValidModel(defs, s.additionalProperties, Val(v)[k])
             ELSE TRUE     \* IgnoreUnknownProps: also under additionalProperties:false (documented)
   /\ Has(s, "allOf") => \A i \in DOMAIN s.allOf : ValidModel(defs, s.allOf[i], v)
 
@@ -206,5 +211,68 @@ ValidModel(defs, s0, v) ==
 AllowedVerdicts(defs, s, d) ==
   { ValidModel(defs, s, e) : e \in Erasures(defs, s, d, 2) } \cup
   (IF Valid(defs, s, d) THEN {TRUE} ELSE {})
+
+(***************************************************************************)
+(* C05: what a decode/encode round trip may change.                        *)
+(***************************************************************************)
+RECURSIVE AllProps(_, _)
+AllProps(defs, s0) ==
+  LET s == Deref(defs, s0)
+      own == Props(s)
+      mem == IF Has(s, "allOf") THEN {AllProps(defs, s.allOf[i]) : i \in DOMAIN s.allOf} ELSE {}
+      names == DOMAIN own \cup UNION {DOMAIN m : m \in mem}
+  IN [k \in names |-> IF k \in DOMAIN own THEN own[k] ELSE (CHOOSE m \in mem : k \in DOMAIN m)[k]]
+
+RECURSIVE AllRequired(_, _)
+AllRequired(defs, s0) ==
+  LET s == Deref(defs, s0) IN
+  Required(s) \cup (IF Has(s, "allOf") THEN UNION {AllRequired(defs, s.allOf[i]) : i \in DOMAIN s.allOf} ELSE {})
+
+RECURSIVE AddlSchema(_, _)
+\* the schema governing undeclared properties, [none |-> TRUE] when there is none
+AddlSchema(defs, s0) ==
+  LET s == Deref(defs, s0) IN
+  IF Has(s, "additionalProperties") THEN s.additionalProperties
+  ELSE IF Has(s, "allOf") /\ \E i \in DOMAIN s.allOf : ~Has(AddlSchema(defs, s.allOf[i]), "none")
+    THEN AddlSchema(defs, s.allOf[CHOOSE i \in DOMAIN s.allOf : ~Has(AddlSchema(defs, s.allOf[i]), "none")])
+  ELSE [none |-> TRUE]
+
+IsZeroish(v) ==
+  \/ Tag(v) = "num" /\ Val(v) = 0
+  \/ Tag(v) = "str" /\ Val(v) = ""
+  \/ Tag(v) = "bool" /\ Val(v) = FALSE
+  \/ Tag(v) \in {"arr", "obj"} /\ DOMAIN Val(v) = {}
+  \/ Tag(v) = "null"
+
+IsArraySchema(defs, s0) == LET s == Deref(defs, s0) IN Has(s, "type") /\ s.type = "array"
+
+RECURSIVE RoundTripAllowed(_, _, _, _)
+RoundTripAllowed(defs, s0, d, o) ==
+  LET s == Deref(defs, s0) IN
+  IF Tag(d) = "obj" THEN
+    /\ Tag(o) = "obj"
+    /\ LET props == AllProps(defs, s)
+           req   == AllRequired(defs, s)
+           addl  == AddlSchema(defs, s) IN
+       /\ \A k \in DOMAIN Val(d) :
+            IF k \in DOMAIN props
+              THEN \/ k \in DOMAIN Val(o) /\ RoundTripAllowed(defs, props[k], Val(d)[k], Val(o)[k])
+                   \/ k \notin req /\ IsZeroish(Val(d)[k]) /\ k \notin DOMAIN Val(o)      \* OmitEmptyOptional
+            ELSE IF ~Has(addl, "none")
+              THEN k \in DOMAIN Val(o) /\ RoundTripAllowed(defs, addl, Val(d)[k], Val(o)[k])
+            ELSE k \in DOMAIN Val(o) => Val(o)[k] = Val(d)[k]                               \* may be dropped
+       /\ \A k \in (DOMAIN Val(o)) \ (DOMAIN Val(d)) :                                \* nothing is added ...
+            k \in DOMAIN props /\ IsArraySchema(defs, props[k]) /\ Val(o)[k] = Null  \* ... but an absent array as null
+  ELSE IF Tag(d) = "arr" THEN
+    /\ Tag(o) = "arr" /\ Len(Val(o)) = Len(Val(d))
+    /\ \A i \in DOMAIN Val(d) :
+         IF Has(s, "items") THEN RoundTripAllowed(defs, s.items, Val(d)[i], Val(o)[i]) ELSE Val(o)[i] = Val(d)[i]
+  ELSE o = d
+
+RECURSIVE HasNumX(_)
+HasNumX(d) ==
+  \/ Tag(d) = "numx"
+  \/ Tag(d) = "arr" /\ \E i \in DOMAIN Val(d) : HasNumX(Val(d)[i])
+  \/ Tag(d) = "obj" /\ \E k \in DOMAIN Val(d) : HasNumX(Val(d)[k])
 
 =============================================================================
